@@ -313,9 +313,21 @@ Wr(p) ==
              [] o.op = "inc" -> Res("INC", "", nv.v)
              [] o.op = "patch" -> Res(IF me.isc THEN "CREATED" ELSE "PATCHED", "", 0) IN
   /\ me.pc = "wr"
-  /\ sh' = s2
-  /\ Finish(p, "rel", r, [me EXCEPT !.sav = TRUE])
-  /\ used' = used \cup (IF o.op = "set" /\ ((o.ow = 0 /\ ~pub) \/ (o.cr = 0 /\ pub)) THEN {"SetCheck"} ELSE {})
+  /\ \/ /\ sh' = s2
+        /\ Finish(p, "rel", r, [me EXCEPT !.sav = TRUE])
+        /\ used' = used \cup (IF o.op = "set" /\ ((o.ow = 0 /\ ~pub) \/ (o.cr = 0 /\ pub)) THEN {"SetCheck"} ELSE {})
+     \/ \* SaveFunction's look-up and beaconKey.Add are two steps: when a dead object and a fresh one are saved for the same
+        \* key at the same time (only possible under Stale), both see the key absent, both take the "new" branch, and
+        \* Add keeps whichever came first: this Save answers as a creation but its object stays unpublished
+        /\ "Stale" \in Dev /\ sh.beacon[k] # 0 /\ sh.beacon[k] # x
+        /\ LET s3 == [sh EXCEPT !.content[x] = nv, !.creating[k] = 0]
+               s4 == IF Immediate(sh) THEN GRel(s3, x, me.gid) ELSE s3
+               r2 == CASE o.op = "set" -> Res("NEW", "", 0)
+                       [] o.op = "inc" -> Res("INC", "", nv.v)
+                       [] o.op = "patch" -> Res(IF me.isc THEN "CREATED" ELSE "PATCHED", "", 0) IN
+          /\ sh' = s4
+          /\ Finish(p, "rel", r2, [me EXCEPT !.sav = TRUE])
+          /\ used' = used \cup {"Stale"}
 
 \* the caller's deferred ReleaseTreasureGuard (+ PatchFields' deferred clean-up of the in-flight tracker)
 Rel(p) ==
